@@ -198,9 +198,20 @@ def run(ctx):
                 other_slot = rng.choice([s_ for s_ in (1, 3, 7) if s_ != slot])
                 other = devices.ControllerDevice(devices.random_identity(rng), rng, b.log)
                 t = rt.RefTarget(rng, front=dev, routes={((1, slot),): dev, ((1, other_slot),): other}, log=b.log)
-                b.set_target(t)
-                path = f"{b.host}/{slot}" if kind != "cip" else f"{b.host}/bp/{slot}"
-                drv = {"cip": p.CIPDriver, "logix": p.LogixDriver, "slc": p.SLCDriver}[kind](path, **({"init_tags": False} if kind == "logix" else {}))
+                # the TCP port of the path string is where the connection goes - for the driver and for the list_identity(path) class method
+                port = rng.choice([44818, 44818, 2222, 10001, 65534])
+                b.set_target(t, port=port)
+                hp = b.host if port == 44818 and rng.random() < 0.7 else f"{b.host}:{port}"
+                path = f"{hp}/{slot}" if kind != "cip" else f"{hp}/bp/{slot}"
+                cls_ = {"cip": p.CIPDriver, "logix": p.LogixDriver, "slc": p.SLCDriver}[kind]
+                # (LogixDriver.list_identity would run the whole Logix initialisation against this plain CIP device: asked through CIPDriver)
+                lid_cls, lid_path = (cls_, path) if kind != "logix" else (p.CIPDriver, f"{hp}/bp/{slot}")
+                st, idn_ = b.call("list_identity", lid_cls.list_identity, lid_path)
+                res.ev()
+                res.seen("list_identity(path)", kind, port)
+                if st != "ok" or not isinstance(idn_, dict) or idn_.get("serial") != f"{dev.identity.serial:08x}":
+                    res.violation(f"e2e-list-identity-path:{kind}", f"{lid_cls.__name__}.list_identity({lid_path!r}) -> {idn_!r:.160}; the device at port {port} has serial {dev.identity.serial:08x}", {"path": lid_path})
+                drv = cls_(path, **({"init_tags": False} if kind == "logix" else {}))
                 st, out = b.call("open", drv.open)
                 if st != "ok" or not out:
                     res.ev()
